@@ -114,6 +114,8 @@ def runCase (opsField obsField : String) : Result := Id.run do
   let mut o : OMap Val := []
   let mut step := 0
   for (os, ob) in opStrs.zip obs do
+    if (ob.splitOn "panic").length > 1 || (ob.splitOn "PANIC").length > 1 then
+      return ⟨"P", s!"step {step} op [{os}] impl [{ob}] violates C06: key=panic"⟩
     let ts := toks os
     match parseOp ts with
     | none => return ⟨"B", s!"step {step}: cannot parse op: {os}"⟩
